@@ -184,11 +184,11 @@ def check_goals(ctx, module, cfg, goals, workers=4, timeout=300):
     return res
 
 
-def tlc_abs(ctx, module, cfgpath, workers=4, timeout=300, tag="x", env=None):
+def tlc_abs(ctx, module, cfgpath, workers=4, timeout=300, tag="x", env=None, extra=()):
     meta = ctx.path("meta-" + tag)
     jopts = "-Djava.io.tmpdir=%s" % ctx.path("tmp")
     cmd = ["timeout", str(timeout), "java", "-XX:+UseParallelGC", "-Xmx4g", "-cp", TLA_CP, "tlc2.TLC",
-           "-workers", str(workers), "-metadir", meta, "-cleanup", "-noGenerateSpecTE", "-config", cfgpath,
+           "-workers", str(workers), "-metadir", meta, "-cleanup", "-noGenerateSpecTE", "-config", cfgpath] + list(extra) + [
            os.path.join(SPECS, module + ".tla")]
     e = dict(os.environ, JAVA_TOOL_OPTIONS=jopts)
     if env:
@@ -196,7 +196,7 @@ def tlc_abs(ctx, module, cfgpath, workers=4, timeout=300, tag="x", env=None):
     p = subprocess.run(cmd, cwd=ctx.work, env=e, stdout=subprocess.PIPE, stderr=subprocess.STDOUT, text=True)
     shutil.rmtree(meta, ignore_errors=True)
     if p.returncode == 124:
-        raise ToolError("TLC timed out on goal %s" % tag)
+        raise ToolError("TLC timed out on %s" % tag)
     return TlcResult(p.stdout, p.returncode)
 
 
@@ -489,3 +489,57 @@ def match_known(ctx, rej):
         if m and all(ev.get(a) == b for a, b in m.items()):
             return k["what"]
     return None
+
+
+def model_check_text(ctx, module, cfg_text, tag, workers=2, timeout=600, simulate=None):
+    """Model-check with a generated configuration (parameter grids); simulate="num=N" explores random
+    behaviours instead of all of them (recorded as non-exhaustive by the caller)."""
+    path = ctx.path("gen-%s.cfg" % tag)
+    with open(path, "w") as f:
+        f.write(cfg_text)
+    extra = ["-simulate", simulate[0], "-depth", str(simulate[1])] if simulate else []
+    r = tlc_abs(ctx, module, path, workers=1 if simulate else workers, timeout=timeout, tag=tag, extra=extra)
+    if simulate:
+        m = re.search(r"(\d[\d,]*) states checked", r.text)
+        r.generated = int(m.group(1).replace(",", "")) if m else 0
+    if r.inv_violated or r.error or ("Model checking completed" not in r.text and not simulate):
+        sys.stdout.write(r.text[-5000:])
+        raise ToolError("model %s [%s]: invariant %s violated or TLC error" % (module, tag, r.inv_violated))
+    ctx.states += r.distinct
+    ctx.transitions += r.generated
+    return r
+
+
+def generate_text(ctx, module, cfg_text, tag, out_path, limit=None, workers=2, timeout=600, tagname="REPLAY"):
+    path = ctx.path("gen-%s.cfg" % tag)
+    with open(path, "w") as f:
+        f.write(cfg_text)
+    r = tlc_abs(ctx, module, path, workers=workers, timeout=timeout, tag=tag)
+    if r.inv_violated or r.error:
+        sys.stdout.write(r.text[-4000:])
+        raise ToolError("generator %s [%s] failed" % (module, tag))
+    beh = r.lines(tagname)
+    n = 0
+    with open(out_path, "a") as f:
+        for b in beh:
+            if limit is not None and n >= limit:
+                break
+            f.write(b + "\n")
+            n += 1
+    ctx.states += r.distinct
+    ctx.transitions += r.generated
+    return n
+
+
+def check_goals_text(ctx, module, cfg_text, goals, workers=2, timeout=300):
+    base = re.sub(r"^INVARIANTS?.*$", "", cfg_text, flags=re.M)
+    for g in goals:
+        path = ctx.path("goal-%s.cfg" % g)
+        with open(path, "w") as f:
+            f.write(base + "\nINVARIANT %s\n" % g)
+        r = tlc_abs(ctx, module, path, workers=workers, timeout=timeout, tag="goal-" + g)
+        ok = g in r.inv_violated
+        ctx.log("GOAL %s: %s %s" % (module, g, "reached" if ok else "NOT reached"))
+        ctx.notes.setdefault("reachability_goals", {})[g] = ok
+        if not ok:
+            raise ToolError("reachability goal %s of %s was not reached (vacuous model?)" % (g, module))
